@@ -8,6 +8,7 @@ HOWS = ['inner', 'left', 'right', 'full', 'leftsemi', 'leftanti', 'cross']
 
 class C13(Prop):
     id = 'C13'
+    extracted = True      # merge_schemas / get_on_fields regenerated from the current source (Extracted/EquivC13.lean)
     quick_cases = 2500
     thorough_cases = 40000
     quick_budget_s = 50
